@@ -10,6 +10,8 @@ from props import fam_sf as F
 ION_PD_EXCEPTIONS = {112, 115, 198}     # Sc3+, Ti4+, Bi5+ (enumerated in Properties_C16.v)
 
 
+MANIFEST = {'technique': 'Coq proof: vm_compute over the regenerated tables + interval arithmetic over the continuum [0, 2 A^-1] per element + coefficient algebra over R; differential check and quadrature oracles on gemmi', 'text': 'Theorems over the tables regenerated from /repo: |c + sum a - (Z - q)| <= 0.15% for every X-ray row (elements and ions); for every neutral atom f(x) > 0 and f\'(x) <= 0 for EVERY real x in [0,4] (one interval proof per element, X-ray and electron tables), hence non-increasing by the mean value theorem; ions: same with three explicit exceptions (Sc3+, Ti4+, Bi5+, as published); ion lookup returns exactly the requested row, other charges fall back to the neutral atom, get_exact is null iff absent (exhaustive over el x charge); lookups executed by the compiled library equal the model; density normalisation and Fourier-transform identities as coefficient algebra given the Gaussian integral. "Exactly the published values" is decided only as equality with a frozen dump (no published copy offline) plus independent cross-checks (electron counts, known neutron lengths). Differential run: all rows bit-exact, calculate_sf/density iso/aniso double and float; oracles: radial and 3-D quadrature of gemmi densities vs f(s) exp(-B s^2/4).', 'note': 'Trusted: Coq kernel + vm_compute + Interval tactic (primitive-integer axioms of the standard library, Reals axioms: sig_forall_dec, sig_not_dec, classic, functional_extensionality_dep); translator gen/dump_formfact.cpp; extraction; harness. Gaussian integral/Fourier transform are Section hypotheses. LIMITATION: published values = frozen copy gen/golden.'}
+
 def dy(x, bits=6):
     """nearest dyadic rational with `bits` fractional bits, printed exactly (exact in float and double)."""
     k = round(x * (1 << bits))
